@@ -23,7 +23,10 @@ RULE = (
     "exhaustive matrix codec {none, gz, bz2, lz4, zst, zstd} x container {record stream, avro} x naming {path with the right "
     "extension / URL scheme (avro://x.<codec> for Avro under a codec), neutral file name (+ avro:// scheme for Avro), "
     "buffered file object open(p,'rb'), io.BytesIO, raw non-peekable object (io.FileIO and a minimal io.RawIOBase subclass), "
-    "stdin of an rdump subprocess writing a record stream} x 4 generated record sequences per seed, one of them with 400 "
+    "stdin of a subprocess re-writing a record stream: `rdump - -w` / `rdump -w`, `rdump stream://-|stream://|avro://-|avro:// "
+    "-w`, and RecordReader('<scheme>://-' | '<scheme>://') in a python worker; for codec none also BytesIO / open file / "
+    "io.FileIO holding a preamble (1 byte, text, gzip-looking bytes, the other container's magic, 9000 random bytes, a "
+    "complete other file of the same container) before the payload and seek()ed to the payload's start} x 4 generated record sequences per seed, one of them with 400 "
     "records (thorough: 10, three with 800-6000 records, so files cross the buffer sizes); every written file: leading bytes == the codec's magic from "
     "the format specification, independent decompression (stdlib gzip/bz2, lz4.frame, zstandard, + the CLIs gzip/bzip2/"
     "zstd/lz4 -t when present) succeeds, the decompressed payload starts with the container magic and read on its own gives "
@@ -71,7 +74,8 @@ CODEC_CLI = {"gz": "gzip", "bz2": "bzip2", "lz4": "lz4", "zst": "zstd", "zstd": 
 CONTAINERS = ("stream", "avro")
 STREAM_MAGIC = b"RECORDSTREAM\n"
 AVRO_MAGIC = b"Obj\x01"
-NAMINGS = ("ext", "neutral", "buffered", "bytesio", "raw", "stdin")
+NAMINGS = ("ext", "neutral", "buffered", "bytesio", "raw", "stdin", "stdin-scheme", "stdin-scheme-worker")
+OFFSET_NAMINGS = ("offset-bytesio", "offset-buffered", "offset-raw")  # codec none only
 STREAM_TYPES = [t for t in gen.ALL_FIELD_TYPES
                 if not t.startswith("record") and (t[:-2] if t.endswith("[]") else t) not in ("net.ipaddress", "net.IPAddress", "dynamic")]
 
@@ -240,18 +244,40 @@ def drain(make_reader):
                 pass
 
 
+WORKER = (
+    "import sys, warnings\n"
+    "warnings.simplefilter('ignore')\n"
+    "from flow.record import RecordReader, RecordWriter\n"
+    "rd = RecordReader(sys.argv[1])\n"
+    "w = RecordWriter(sys.argv[2])\n"
+    "n = 0\n"
+    "for r in rd:\n"
+    "    w.write(r); n += 1\n"
+    "w.flush(); w.close()\n"
+    "sys.stdout.write('%s %d' % (type(rd).__name__, n))\n"
+)
+
+
 def run_rdump(ctx, data, variant):
-    """Feed `data` to the stdin of an rdump subprocess that writes a record stream file.  -> (returncode, stderr, out path)"""
+    """Feed `data` to the stdin of a subprocess that re-writes what it reads as a plain record stream file.
+    variant: 0 `rdump - -w OUT`, 1 `rdump -w OUT`, or a source string ('stream://-', 'avro://', ...) -> `rdump SRC -w OUT`,
+    or ('worker', SRC) -> a python subprocess doing RecordReader(SRC) -> RecordWriter(OUT).
+    -> (returncode, stderr, out path, stdout)"""
     out = tmp_name(ctx, "rdump-out", ".records")
-    argv = list(ctx.state["rdump"]) + (["-", "-w", out] if variant == 0 else ["-w", out])
+    if isinstance(variant, tuple):
+        argv = [sys.executable, "-c", WORKER, variant[1], out]
+    elif isinstance(variant, str):
+        argv = list(ctx.state["rdump"]) + [variant, "-w", out]
+    else:
+        argv = list(ctx.state["rdump"]) + (["-", "-w", out] if variant == 0 else ["-w", out])
     try:
         p = subprocess.run(argv, input=data, stdout=subprocess.PIPE, stderr=subprocess.PIPE, timeout=600, env=ctx.state["env"],
                            cwd=ctx.state["tmp"])
     except subprocess.TimeoutExpired:
-        ctx.require(False, "an rdump subprocess did not finish within 600 s")
-        return None, "", out
-    ctx.event("rdump_subprocesses")
-    return p.returncode, p.stderr.decode("utf-8", "replace"), out
+        ctx.require(False, "a subprocess reading stdin did not finish within 600 s")
+        return None, "", out, ""
+    ctx.event("worker_subprocesses" if isinstance(variant, tuple) else "rdump_subprocesses")
+    return p.returncode, p.stderr.decode("utf-8", "replace"), out, p.stdout.decode("utf-8", "replace")
 
 
 def reader_class_ok(rd, container):
@@ -405,32 +431,98 @@ def execute_cell(ctx, case):
         f.close()
     one("raw", lambda: RecordReader(fileobj=MinimalRaw(raw)), sub="(minimal RawIOBase)")
 
-    # stdin of an rdump subprocess which re-writes what it reads as a plain record stream
-    variant = (seq + CODECS.index(codec)) % 2
-    rc, stderr, out = run_rdump(ctx, raw, variant)
-    if rc is not None:
-        what = "via stdin of rdump (%s)" % ("rdump - -w" if variant == 0 else "rdump -w")
-        d2 = dict(detail, naming="stdin", returncode=rc, stderr=stderr[-600:])
-        ctx.event("reads:stdin")
+    # stdin of a subprocess which re-writes what it reads as a plain record stream: rdump with '-' / without a source,
+    # rdump with stdin named through an explicit scheme, and a worker doing RecordReader('<scheme>://-')
+    ci = CODECS.index(codec)
+    scheme = "stream" if container == "stream" else "avro"
+    stdin_variants = [
+        ("stdin", (seq + ci) % 2, "rdump - -w" if (seq + ci) % 2 == 0 else "rdump -w"),
+        ("stdin-scheme", scheme + ("://-" if (seq // 2 + ci) % 2 == 0 else "://"), None),
+        ("stdin-scheme-worker", ("worker", scheme + ("://" if (seq // 2 + ci) % 2 == 0 else "://-")), None),
+    ]
+    if seq % 2:
+        stdin_variants[1], stdin_variants[2] = (("stdin-scheme", scheme + ("://" if (seq // 2 + ci) % 2 == 0 else "://-"), None),
+                                                ("stdin-scheme-worker", ("worker", scheme + ("://-" if (seq // 2 + ci) % 2 == 0 else "://")), None))
+    for naming, variant, label in stdin_variants:
+        rc, stderr, out, stdout = run_rdump(ctx, raw, variant)
+        if rc is None:
+            continue
+        if label is None:
+            label = ("rdump %s -w" % variant) if isinstance(variant, str) else ("RecordReader(%r) in a subprocess" % variant[1])
+        what = "via stdin (%s)" % label
+        d2 = dict(detail, naming=naming, returncode=rc, stderr=stderr[-600:])
+        ctx.event("reads:" + naming)
         if rc != 0 or not os.path.exists(out):
-            ctx.violation(None, "%s: rdump failed" % what, detail=d2)
+            ctx.violation(None, "%s: the subprocess failed" % what, detail=d2)
         else:
+            if isinstance(variant, tuple) and stdout.split(" ")[0] != ("AvroReader" if container == "avro" else "StreamReader"):
+                ctx.violation(None, "%s: RecordReader returned %s" % (what, stdout.split(" ")[0]), detail=d2)
             rd, got, err = drain(lambda: RecordReader(out))
             if err is not None:
-                ctx.violation(None, "%s: the stream rdump wrote cannot be read" % what, detail=dict(d2, exception=repr(err)[:300]))
-            else:
-                if container == "avro":
-                    ok = compare(ctx, "avro", records, before, got, what, d2)
-                else:
-                    ok = compare(ctx, "stream", records, before, got, what, d2)
-                if ok:
-                    ctx.cell(codec, container, "stdin")
-                    ctx.nontrivial("cell", codec, container, case["s"], "stdin")
-    _rm(out)
+                ctx.violation(None, "%s: the stream the subprocess wrote cannot be read" % what, detail=dict(d2, exception=repr(err)[:300]))
+            elif compare(ctx, container, records, before, got, what, d2):
+                ctx.cell(codec, container, naming)
+                ctx.nontrivial("cell", codec, container, case["s"], naming, label)
+        _rm(out)
+
+    # file objects positioned at a non-zero offset: the leading bytes are the bytes from the current position
+    if codec == "none":
+        offset_reads(ctx, case, container, records, before, raw, detail, one)
     _rm(path)
     ctx.event("records_written", len(records))
     ctx.sample({"case": case, "url": detail["url"], "file_bytes": len(raw), "leading_bytes": raw[:8].hex(),
                 "records": workload.describe(records, 2)}, kind=cellname)
+
+
+def offset_reads(ctx, case, container, records, before, raw, detail, one):
+    """A preamble of other bytes followed by the complete plain container, the object seek()ed to the start of the payload
+    before it is handed to RecordReader(fileobj=...): exactly the payload's records must come back."""
+    from flow.record import RecordReader, RecordWriter
+
+    rng = random.Random(case["s"] ^ 0x0FF5E7)
+    # a complete other file of the same container with different records ("two files back to back, positioned at the second")
+    other_case = dict(case, s=case["s"] + 7919, seq=0)
+    other_path = tmp_name(ctx, "other", ".records" if container == "stream" else ".avro")
+    w = RecordWriter(other_path)
+    try:
+        for r in build_records(other_case, False):
+            w.write(r)
+    finally:
+        w.flush()
+        w.close()
+    with open(other_path, "rb") as f:
+        other = f.read()
+    _rm(other_path)
+    preambles = {
+        "1-byte": b"#",
+        "text": b"some leading text that is not part of the payload\n",
+        "gzip-looking": b"\x1f\x8b\x08\x00 looks like the start of a gzip member",
+        "other-container-magic": (AVRO_MAGIC + b"\x00" * 20) if container == "stream" else (b"\x00\x00\x00\x0f\xc4\x0d" + STREAM_MAGIC),
+        "random-9000": bytes(rng.randrange(256) for _ in range(9000)),
+        "second-of-two-files": other,
+    }
+    for pname, pre in preambles.items():
+        data = pre + raw
+        for okind in ("bytesio", "buffered", "raw"):
+            path = None
+            if okind == "bytesio":
+                f = io.BytesIO(data)
+            else:
+                path = tmp_name(ctx, "offset", ".bin")
+                with open(path, "wb") as out:
+                    out.write(data)
+                f = open(path, "rb") if okind == "buffered" else io.FileIO(path, "r")
+            try:
+                f.seek(len(pre))
+                one("offset-" + okind, lambda: RecordReader(fileobj=f), sub="(preamble: %s)" % pname)
+            finally:
+                try:
+                    f.close()
+                except Exception:
+                    pass
+                if path:
+                    _rm(path)
+            ctx.event("offset_reads")
 
 
 # ---- junk -------------------------------------------------------------------------------------------------------------
@@ -527,7 +619,7 @@ def execute_junk(ctx, case):
     ctx.ev()
     detail = {"junk": kind, "via": via, "bytes": data[:48].hex(), "length": len(data)}
     if via == "stdin":
-        rc, stderr, out = run_rdump(ctx, data, case["s"] % 2)
+        rc, stderr, out, _ = run_rdump(ctx, data, (0, 1, "stream://-", "stream://", "avro://-")[case["s"] % 5])
         if rc is None:
             return
         got, err = [], None
@@ -673,7 +765,7 @@ def finish(ctx):
     ctx.state["reach"].into(ctx)
     ctx.exhaustive = True  # the codec x container x naming matrix and the junk kind x naming table are enumerated completely
     if ctx.shard == 0:
-        ctx.note("matrix_cells_expected", len(CODECS) * len(CONTAINERS) * len(NAMINGS))
+        ctx.note("matrix_cells_expected", len(CODECS) * len(CONTAINERS) * len(NAMINGS) + len(CONTAINERS) * len(OFFSET_NAMINGS))
         ctx.note("junk_cells_expected", len(JUNK_KINDS) * len(JUNK_VIAS))
         ctx.note("cli_tools", {k: (v or "absent") for k, v in ctx.state["clis"].items()})
         ctx.note("rdump_argv0", ctx.state["rdump"])
